@@ -25,6 +25,15 @@ Theorem c13_values_fresh : forall c q rnd ref par i,
 Proof. exact login_atoms_fresh. Qed.
 Print Assumptions c13_values_fresh.
 
+(** ... under every behaviour of the pushed-authorization endpoint (healthy, 4xx, 5xx once or for the whole retry
+    budget, malformed body, hanging, unreachable): also a login that fails at the PAR step has used up its draws *)
+Theorem c13_values_fresh_any_par : forall c q rnd ref replies i,
+  let o := login_par c q rnd ref replies i in
+  rnd + 3 <= lo_rnd o /\ VRnd rnd <> VRnd (rnd + 1) /\ VRnd rnd <> VRnd (rnd + 2) /\ VRnd (rnd + 1) <> VRnd (rnd + 2).
+Proof. exact login_par_atoms_fresh. Qed.
+Print Assumptions c13_values_fresh_any_par.
+
+(** the history is a list of (request, ingress, behaviour of the PAR endpoint during that login) *)
 Theorem c13_never_reused : forall c reqs rnd, NoDup (fst (login_history c reqs rnd)).
 Proof. exact login_history_nodup. Qed.
 Print Assumptions c13_never_reused.
@@ -41,16 +50,17 @@ Print Assumptions c13_cookie_binds.
         X-Forwarded-Host header, its path is the longest configured prefix of the request path, the
         redirect_uri (in the browser URL, or in the PAR body) is its callback URL and the cookie binds it;
         with no matching ingress nothing is sent, set or drawn. Same for the post-logout redirect URI. *)
-Theorem c13_redirect_uri_configured : forall c q rnd ref par o,
-  In o (login_results c q rnd ref par) -> lo_ok o = true ->
+Theorem c13_redirect_uri_configured : forall c q rnd ref replies o,
+  In o (login_results c q rnd ref replies) -> lo_ok o = true ->
   exists i, In i (a_ingresses c) /\ (i_host i = r_host q \/ i_host i = r_xfh q) /\ i_path i = matching_path c q /\
-            In (PRedirectUri, VStr (callback_url i)) (match lo_back o with [BPar b] => b | _ => lo_browser o end) /\
+            (a_par c = false -> In (PRedirectUri, VStr (callback_url i)) (lo_browser o)) /\
+            (a_par c = true -> lo_back o <> [] /\ forall b, In (BPar b) (lo_back o) -> In (PRedirectUri, VStr (callback_url i)) b) /\
             lo_cookie o = Some (CkEnc (a_key c) (login_cookie_fields c q i rnd ref)).
 Proof. exact login_redirect_uri_configured. Qed.
 Print Assumptions c13_redirect_uri_configured.
 
-Theorem c13_no_match_sends_nothing : forall c q rnd ref par o,
-  matching_ingresses c q = [] -> In o (login_results c q rnd ref par) ->
+Theorem c13_no_match_sends_nothing : forall c q rnd ref replies o,
+  matching_ingresses c q = [] -> In o (login_results c q rnd ref replies) ->
   lo_ok o = false /\ lo_back o = [] /\ lo_browser o = [] /\ lo_cookie o = None /\ lo_rnd o = rnd.
 Proof. exact login_no_match_sends_nothing. Qed.
 Print Assumptions c13_no_match_sends_nothing.
@@ -99,7 +109,7 @@ Theorem c13_prompt_implies_max_age : forall c q i rnd,
 Proof. exact prompt_implies_max_age. Qed.
 Print Assumptions c13_prompt_implies_max_age.
 
-(** (6) pushed authorization requests *)
+(** (6) pushed authorization requests. With a PAR endpoint that answers the first attempt with [par]: *)
 Theorem c13_par_browser_sees_only_reference : forall c q rnd ref par i,
   a_par c = true ->
   let o := login_with c q rnd ref par i in
@@ -107,6 +117,61 @@ Theorem c13_par_browser_sees_only_reference : forall c q rnd ref par i,
   exists jti, lo_back o = [BPar (auth_params c q i rnd ++ client_auth c jti)].
 Proof. exact par_browser_sees_only_reference. Qed.
 Print Assumptions c13_par_browser_sees_only_reference.
+
+(** ... and under EVERY behaviour of the PAR endpoint ([replies] = its answers to the successive attempts of this login,
+    ending where the retry budget ends). [login_par] with a healthy first answer is [login_with]. The login produces an
+    authorization request only if some attempt was answered with a request_uri after nothing but 5xx answers; the
+    browser then sees exactly client_id and that request_uri, and every attempt posted the same full parameter set with
+    the same client authentication. In every other case - 4xx, a body that does not decode, no answer until the client's
+    timeout, connection refused, 5xx until the retry budget is spent - there is NO authorization request and no login
+    cookie: what the browser receives is the error / retry response alone. *)
+Theorem c13_par_healthy_is_login_with : forall c q rnd ref uri rest i,
+  login_par c q rnd ref (ParOk uri :: rest) i = login_with c q rnd ref uri i.
+Proof. exact login_par_healthy. Qed.
+Print Assumptions c13_par_healthy_is_login_with.
+
+Theorem c13_par_only_reference_or_nothing : forall c q rnd ref replies i,
+  a_par c = true ->
+  let o := login_par c q rnd ref replies i in
+  let body := auth_params c q i rnd ++ client_auth c (rnd + 3) in
+  Forall (fun b => b = BPar body) (lo_back o) /\
+  (lo_ok o = true ->
+     exists n uri rest, replies = repeat ParServerError n ++ ParOk uri :: rest /\
+       lo_browser o = [(PClientId, VStr (a_client_id c)); (PRequestUri, uri)] /\ lo_back o = repeat (BPar body) (S n)) /\
+  (lo_ok o = false -> lo_browser o = [] /\ lo_cookie o = None).
+Proof.
+  intros c q rnd ref replies i Hp. cbn zeta. split; [now apply login_par_back|]. split.
+  - intros Hok. destruct (login_par_ok c q rnd ref replies i Hp Hok) as (n & uri & rest & H1 & H2 & H3 & _). eauto 8.
+  - now apply login_par_failed.
+Qed.
+Print Assumptions c13_par_only_reference_or_nothing.
+
+(** the failing behaviours one by one: k 5xx answers followed by a final failure, or 5xx for the whole budget *)
+Theorem c13_par_failure_no_authorization_request : forall c q rnd ref i n r rest,
+  a_par c = true -> par_final r = true ->
+  let body := auth_params c q i rnd ++ client_auth c (rnd + 3) in
+  (let o := login_par c q rnd ref (repeat ParServerError n ++ r :: rest) i in
+   lo_ok o = false /\ lo_browser o = [] /\ lo_cookie o = None /\
+   lo_back o = repeat (BPar body) (match r with ParUnreachable => n | _ => S n end)) /\
+  (let o := login_par c q rnd ref (repeat ParServerError n) i in
+   lo_ok o = false /\ lo_browser o = [] /\ lo_cookie o = None /\ lo_back o = repeat (BPar body) n).
+Proof.
+  intros c q rnd ref i n r rest Hp Hr. cbn zeta. unfold login_par. rewrite Hp.
+  rewrite (par_exchange_final _ n r rest Hr), par_exchange_all_5xx. repeat split.
+Qed.
+Print Assumptions c13_par_failure_no_authorization_request.
+
+Example c13_par_failure_nonvacuous :
+  let c := mk_acfg 1 [{| i_scheme := [104;116;116;112]; i_host := [119]; i_path := [] |}] [99] [105] [] [] [] [] [111] []
+                   true true false true true in
+  let q := {| r_host := [119]; r_xfh := []; r_path := [47;111]; r_level := []; r_locale := []; r_prompt := [] |} in
+  map lo_ok (login_results c q 0 (VStr []) [ParServerError; ParServerError; ParOk (VStr [117])]) = [true] /\
+  map (fun o => length (lo_back o)) (login_results c q 0 (VStr []) [ParServerError; ParServerError; ParOk (VStr [117])]) = [3%nat] /\
+  map lo_ok (login_results c q 0 (VStr []) (repeat ParServerError 10)) = [false] /\
+  map (fun o => length (lo_back o)) (login_results c q 0 (VStr []) (repeat ParServerError 10)) = [10%nat] /\
+  map lo_browser (login_results c q 0 (VStr []) [ParServerError; ParTimeout]) = [[]] /\
+  map lo_ok (login_results c q 0 (VStr []) [ParUnreachable]) = [false].
+Proof. vm_compute. repeat split; reflexivity. Qed.
 
 (** (7) credentials (secret, assertion) never occur in what the browser receives: not in the Location's query,
         not inside the login cookie's plaintext. *)
@@ -116,3 +181,12 @@ Theorem c13_front_channel_has_no_credentials : forall c q rnd ref par i,
   no_cred (lo_browser o) /\ (forall k f, lo_cookie o = Some (CkEnc k f) -> no_cred_fields f).
 Proof. exact login_front_channel_has_no_credentials. Qed.
 Print Assumptions c13_front_channel_has_no_credentials.
+
+(** ... under every behaviour of the PAR endpoint (whose request_uri answers are public strings): in particular a login
+    whose pushed authorization request failed hands nothing that contains a credential to the browser *)
+Theorem c13_front_channel_has_no_credentials_any_par : forall c q rnd ref replies i,
+  is_credential ref = false -> Forall par_reply_public replies ->
+  let o := login_par c q rnd ref replies i in
+  no_cred (lo_browser o) /\ (forall k f, lo_cookie o = Some (CkEnc k f) -> no_cred_fields f).
+Proof. exact login_par_front_channel_has_no_credentials. Qed.
+Print Assumptions c13_front_channel_has_no_credentials_any_par.
